@@ -1,0 +1,53 @@
+//go:build verif
+
+package sniproxy
+
+import (
+	"bytes"
+)
+
+// This file is only built with the "verif" tag. It lets an external
+// verification harness decode several request frames in a row through the
+// startCall entry point of ONE endpointServer and look at the decoded
+// requests again later, the way serve() hands every decoded exchange to a
+// goroutine and goes on decoding the next frame; it adds no behaviour to the
+// package.
+
+// VerifServerEntry is one endpointServer used for many startCall decodes.
+type VerifServerEntry struct{ s *endpointServer }
+
+// VerifNewServerEntry makes an endpointServer as Endpoint does.
+func VerifNewServerEntry() *VerifServerEntry {
+	return &VerifServerEntry{s: newEndpointServer(nil, nil, &Options{})}
+}
+
+// VerifHeldCall is a decoded request that the caller keeps.
+type VerifHeldCall struct {
+	ID   uint64
+	Typ  uint8
+	Name string
+	Err  string
+	x    *endpointExchange
+}
+
+// StartCall decodes one frame; the result stays valid for Fields.
+func (e *VerifServerEntry) StartCall(data []byte) *VerifHeldCall {
+	x, err := e.s.startCall(bytes.NewReader(data))
+	if err != nil {
+		return &VerifHeldCall{Err: VerifErrKind(err)}
+	}
+	h := &VerifHeldCall{ID: x.id, Typ: x.t, Err: "ok", x: x}
+	if x.req != nil {
+		h.Name, _ = verifFieldsOf(x.req)
+	}
+	return h
+}
+
+// Fields reads the request's fields as they are NOW.
+func (h *VerifHeldCall) Fields() []VerifField {
+	if h.x == nil || h.x.req == nil {
+		return nil
+	}
+	_, fs := verifFieldsOf(h.x.req)
+	return fs
+}
